@@ -3,13 +3,16 @@ LEVEL = "proof"
 LEAN_MODULES = ["CifModel.Props.C17"]
 REQUIRED = ["CifModel.C17_dup_ustrings_balanced", "CifModel.C17_clone_balanced", "CifModel.C17_insert_balanced",
             "CifModel.C17_fault_reached_iff", "CifModel.C17_set_element_balanced", "CifModel.C17_get_names_balanced",
-            "CifModel.C17_cex_get_names_leak", "CifModel.C17_clone_shape", "CifModel.C17_balanced_nodup"]
+            "CifModel.C17_cex_get_names_leak", "CifModel.C17_clone_shape", "CifModel.C17_balanced_nodup",
+            "CifModel.C17_copy_char_balanced", "CifModel.C17_packet_create_balanced",
+            "CifModel.C17_cex_packet_create_undefined", "CifModel.C17_deserialize_balanced"]
 GEN = []
 FAMILIES = ["ladder", "oom"]
 TRUSTED_BASE = [
     "Lean 4.33.0 kernel; axioms propext / Quot.sound / Classical.choice only",
     "Model/Ladder.lean: hand transcription of the allocation/clean-up control flow of dup_ustrings, cif_value_clone (scalar, "
-    "char, number, nested list), cif_value_insert_element_at, cif_value_set_element_at and cif_loop_get_names; tied to the real code by family `ladder` (event pattern "
+    "char, number, nested list), cif_value_insert_element_at, cif_value_set_element_at, cif_loop_get_names, cif_value_copy_char, cif_packet_create "
+    "(ASCII names, below uthash's first bucket expansion) and cif_value_deserialize of list blobs; tied to the real code by family `ladder` (event pattern "
     "recorded by the allocation wrappers of harness/alloc.h for every fault position of every generated shape)",
     "harness/alloc.h (--wrap of malloc/calloc/realloc/strdup/free in the executor, SQLite allocator via "
     "SQLITE_CONFIG_MALLOC, ICU allocator via u_setMemoryFunctions), harness/x_oom.c scenarios, tools/gen/oom.py oracle",
